@@ -423,19 +423,6 @@ fn user_quant(k: u8, which: u8) {
     std::mem::forget(coll);
 }
 
-//@ harness: c06_all_bool tier=thorough timeout=1800 kind=main mem=28 optional=1
-//@ encodes: op::array::all, op::logic::truthy_from_evaluated, op::logic::truthy (Parsed::from_value replaced by its recording twin: literals parse to Raw, C02; Value::clone by the bounded model)
-//@ bound: collection [5] (literal), literal predicate v = Bool(any): the operator's decision equals the truthiness table
-#[cfg_attr(kani, kani::proof)]
-#[cfg_attr(kani, kani::unwind(8))]
-#[cfg_attr(kani, kani::stub(std::fmt::format, stub_format))]
-#[cfg_attr(kani, kani::stub(crate::value::Parsed::from_value, crate::value::verif_c05_value::RecParsed::from_value))]
-#[cfg_attr(kani, kani::stub(<serde_json::Value as std::clone::Clone>::clone, value_clone_model))]
-#[cfg_attr(verif_replay, test)]
-pub fn c06_all_bool() {
-    user_quant(1, 0);
-}
-
 //@ harness: c06_some_bool tier=thorough timeout=1800 kind=main mem=28 optional=1
 //@ encodes: op::array::some, op::logic::truthy_from_evaluated, op::logic::truthy (Parsed::from_value replaced by its recording twin: literals parse to Raw, C02; Value::clone by the bounded model)
 //@ bound: collection [5] (literal), literal predicate v = Bool(any): the operator's decision equals the truthiness table
@@ -447,19 +434,6 @@ pub fn c06_all_bool() {
 #[cfg_attr(verif_replay, test)]
 pub fn c06_some_bool() {
     user_quant(1, 1);
-}
-
-//@ harness: c06_none_bool tier=thorough timeout=1800 kind=main mem=28 optional=1
-//@ encodes: op::array::none, op::logic::truthy_from_evaluated, op::logic::truthy (Parsed::from_value replaced by its recording twin: literals parse to Raw, C02; Value::clone by the bounded model)
-//@ bound: collection [5] (literal), literal predicate v = Bool(any): the operator's decision equals the truthiness table
-#[cfg_attr(kani, kani::proof)]
-#[cfg_attr(kani, kani::unwind(8))]
-#[cfg_attr(kani, kani::stub(std::fmt::format, stub_format))]
-#[cfg_attr(kani, kani::stub(crate::value::Parsed::from_value, crate::value::verif_c05_value::RecParsed::from_value))]
-#[cfg_attr(kani, kani::stub(<serde_json::Value as std::clone::Clone>::clone, value_clone_model))]
-#[cfg_attr(verif_replay, test)]
-pub fn c06_none_bool() {
-    user_quant(1, 2);
 }
 
 //@ harness: c06_filter_bool tier=thorough timeout=1800 kind=main mem=28 optional=1
@@ -488,32 +462,6 @@ pub fn c06_all_f64() {
     user_quant(4, 0);
 }
 
-//@ harness: c06_some_f64 tier=thorough timeout=1800 kind=main mem=28 optional=1
-//@ encodes: op::array::some, op::logic::truthy_from_evaluated, op::logic::truthy (Parsed::from_value replaced by its recording twin: literals parse to Raw, C02; Value::clone by the bounded model)
-//@ bound: collection [5] (literal), literal predicate v = Number(any finite f64, incl. -0.0): the operator's decision equals the truthiness table
-#[cfg_attr(kani, kani::proof)]
-#[cfg_attr(kani, kani::unwind(8))]
-#[cfg_attr(kani, kani::stub(std::fmt::format, stub_format))]
-#[cfg_attr(kani, kani::stub(crate::value::Parsed::from_value, crate::value::verif_c05_value::RecParsed::from_value))]
-#[cfg_attr(kani, kani::stub(<serde_json::Value as std::clone::Clone>::clone, value_clone_model))]
-#[cfg_attr(verif_replay, test)]
-pub fn c06_some_f64() {
-    user_quant(4, 1);
-}
-
-//@ harness: c06_none_f64 tier=thorough timeout=1800 kind=main mem=28 optional=1
-//@ encodes: op::array::none, op::logic::truthy_from_evaluated, op::logic::truthy (Parsed::from_value replaced by its recording twin: literals parse to Raw, C02; Value::clone by the bounded model)
-//@ bound: collection [5] (literal), literal predicate v = Number(any finite f64, incl. -0.0): the operator's decision equals the truthiness table
-#[cfg_attr(kani, kani::proof)]
-#[cfg_attr(kani, kani::unwind(8))]
-#[cfg_attr(kani, kani::stub(std::fmt::format, stub_format))]
-#[cfg_attr(kani, kani::stub(crate::value::Parsed::from_value, crate::value::verif_c05_value::RecParsed::from_value))]
-#[cfg_attr(kani, kani::stub(<serde_json::Value as std::clone::Clone>::clone, value_clone_model))]
-#[cfg_attr(verif_replay, test)]
-pub fn c06_none_f64() {
-    user_quant(4, 2);
-}
-
 //@ harness: c06_filter_f64 tier=thorough timeout=1800 kind=main mem=28 optional=1
 //@ encodes: op::array::filter, op::logic::truthy_from_evaluated, op::logic::truthy (Parsed::from_value replaced by its recording twin: literals parse to Raw, C02; Value::clone by the bounded model)
 //@ bound: collection [5] (literal), literal predicate v = Number(any finite f64, incl. -0.0): the operator's decision equals the truthiness table
@@ -525,19 +473,6 @@ pub fn c06_none_f64() {
 #[cfg_attr(verif_replay, test)]
 pub fn c06_filter_f64() {
     user_quant(4, 3);
-}
-
-//@ harness: c06_all_str tier=thorough timeout=1800 kind=main mem=28 optional=1
-//@ encodes: op::array::all, op::logic::truthy_from_evaluated, op::logic::truthy (Parsed::from_value replaced by its recording twin: literals parse to Raw, C02; Value::clone by the bounded model)
-//@ bound: collection [5] (literal), literal predicate v = String(<= 2 symbolic chars): the operator's decision equals the truthiness table
-#[cfg_attr(kani, kani::proof)]
-#[cfg_attr(kani, kani::unwind(8))]
-#[cfg_attr(kani, kani::stub(std::fmt::format, stub_format))]
-#[cfg_attr(kani, kani::stub(crate::value::Parsed::from_value, crate::value::verif_c05_value::RecParsed::from_value))]
-#[cfg_attr(kani, kani::stub(<serde_json::Value as std::clone::Clone>::clone, value_clone_model))]
-#[cfg_attr(verif_replay, test)]
-pub fn c06_all_str() {
-    user_quant(5, 0);
 }
 
 //@ harness: c06_some_str tier=thorough timeout=1800 kind=main mem=28 optional=1
@@ -553,58 +488,6 @@ pub fn c06_some_str() {
     user_quant(5, 1);
 }
 
-//@ harness: c06_none_str tier=thorough timeout=1800 kind=main mem=28 optional=1
-//@ encodes: op::array::none, op::logic::truthy_from_evaluated, op::logic::truthy (Parsed::from_value replaced by its recording twin: literals parse to Raw, C02; Value::clone by the bounded model)
-//@ bound: collection [5] (literal), literal predicate v = String(<= 2 symbolic chars): the operator's decision equals the truthiness table
-#[cfg_attr(kani, kani::proof)]
-#[cfg_attr(kani, kani::unwind(8))]
-#[cfg_attr(kani, kani::stub(std::fmt::format, stub_format))]
-#[cfg_attr(kani, kani::stub(crate::value::Parsed::from_value, crate::value::verif_c05_value::RecParsed::from_value))]
-#[cfg_attr(kani, kani::stub(<serde_json::Value as std::clone::Clone>::clone, value_clone_model))]
-#[cfg_attr(verif_replay, test)]
-pub fn c06_none_str() {
-    user_quant(5, 2);
-}
-
-//@ harness: c06_filter_str tier=thorough timeout=1800 kind=main mem=28 optional=1
-//@ encodes: op::array::filter, op::logic::truthy_from_evaluated, op::logic::truthy (Parsed::from_value replaced by its recording twin: literals parse to Raw, C02; Value::clone by the bounded model)
-//@ bound: collection [5] (literal), literal predicate v = String(<= 2 symbolic chars): the operator's decision equals the truthiness table
-#[cfg_attr(kani, kani::proof)]
-#[cfg_attr(kani, kani::unwind(8))]
-#[cfg_attr(kani, kani::stub(std::fmt::format, stub_format))]
-#[cfg_attr(kani, kani::stub(crate::value::Parsed::from_value, crate::value::verif_c05_value::RecParsed::from_value))]
-#[cfg_attr(kani, kani::stub(<serde_json::Value as std::clone::Clone>::clone, value_clone_model))]
-#[cfg_attr(verif_replay, test)]
-pub fn c06_filter_str() {
-    user_quant(5, 3);
-}
-
-//@ harness: c06_all_emptyarr tier=thorough timeout=1800 kind=main mem=28 optional=1
-//@ encodes: op::array::all, op::logic::truthy_from_evaluated, op::logic::truthy (Parsed::from_value replaced by its recording twin: literals parse to Raw, C02; Value::clone by the bounded model)
-//@ bound: collection [5] (literal), literal predicate v = []: the operator's decision equals the truthiness table
-#[cfg_attr(kani, kani::proof)]
-#[cfg_attr(kani, kani::unwind(8))]
-#[cfg_attr(kani, kani::stub(std::fmt::format, stub_format))]
-#[cfg_attr(kani, kani::stub(crate::value::Parsed::from_value, crate::value::verif_c05_value::RecParsed::from_value))]
-#[cfg_attr(kani, kani::stub(<serde_json::Value as std::clone::Clone>::clone, value_clone_model))]
-#[cfg_attr(verif_replay, test)]
-pub fn c06_all_emptyarr() {
-    user_quant(6, 0);
-}
-
-//@ harness: c06_some_emptyarr tier=thorough timeout=1800 kind=main mem=28 optional=1
-//@ encodes: op::array::some, op::logic::truthy_from_evaluated, op::logic::truthy (Parsed::from_value replaced by its recording twin: literals parse to Raw, C02; Value::clone by the bounded model)
-//@ bound: collection [5] (literal), literal predicate v = []: the operator's decision equals the truthiness table
-#[cfg_attr(kani, kani::proof)]
-#[cfg_attr(kani, kani::unwind(8))]
-#[cfg_attr(kani, kani::stub(std::fmt::format, stub_format))]
-#[cfg_attr(kani, kani::stub(crate::value::Parsed::from_value, crate::value::verif_c05_value::RecParsed::from_value))]
-#[cfg_attr(kani, kani::stub(<serde_json::Value as std::clone::Clone>::clone, value_clone_model))]
-#[cfg_attr(verif_replay, test)]
-pub fn c06_some_emptyarr() {
-    user_quant(6, 1);
-}
-
 //@ harness: c06_none_emptyarr tier=thorough timeout=1800 kind=main mem=28 optional=1
 //@ encodes: op::array::none, op::logic::truthy_from_evaluated, op::logic::truthy (Parsed::from_value replaced by its recording twin: literals parse to Raw, C02; Value::clone by the bounded model)
 //@ bound: collection [5] (literal), literal predicate v = []: the operator's decision equals the truthiness table
@@ -618,19 +501,6 @@ pub fn c06_none_emptyarr() {
     user_quant(6, 2);
 }
 
-//@ harness: c06_filter_emptyarr tier=thorough timeout=1800 kind=main mem=28 optional=1
-//@ encodes: op::array::filter, op::logic::truthy_from_evaluated, op::logic::truthy (Parsed::from_value replaced by its recording twin: literals parse to Raw, C02; Value::clone by the bounded model)
-//@ bound: collection [5] (literal), literal predicate v = []: the operator's decision equals the truthiness table
-#[cfg_attr(kani, kani::proof)]
-#[cfg_attr(kani, kani::unwind(8))]
-#[cfg_attr(kani, kani::stub(std::fmt::format, stub_format))]
-#[cfg_attr(kani, kani::stub(crate::value::Parsed::from_value, crate::value::verif_c05_value::RecParsed::from_value))]
-#[cfg_attr(kani, kani::stub(<serde_json::Value as std::clone::Clone>::clone, value_clone_model))]
-#[cfg_attr(verif_replay, test)]
-pub fn c06_filter_emptyarr() {
-    user_quant(6, 3);
-}
-
 //@ harness: c06_all_obj tier=thorough timeout=1800 kind=main mem=28 optional=1
 //@ encodes: op::array::all, op::logic::truthy_from_evaluated, op::logic::truthy (Parsed::from_value replaced by its recording twin: literals parse to Raw, C02; Value::clone by the bounded model)
 //@ bound: collection [5] (literal), literal predicate v = {}: the operator's decision equals the truthiness table
@@ -642,32 +512,6 @@ pub fn c06_filter_emptyarr() {
 #[cfg_attr(verif_replay, test)]
 pub fn c06_all_obj() {
     user_quant(9, 0);
-}
-
-//@ harness: c06_some_obj tier=thorough timeout=1800 kind=main mem=28 optional=1
-//@ encodes: op::array::some, op::logic::truthy_from_evaluated, op::logic::truthy (Parsed::from_value replaced by its recording twin: literals parse to Raw, C02; Value::clone by the bounded model)
-//@ bound: collection [5] (literal), literal predicate v = {}: the operator's decision equals the truthiness table
-#[cfg_attr(kani, kani::proof)]
-#[cfg_attr(kani, kani::unwind(8))]
-#[cfg_attr(kani, kani::stub(std::fmt::format, stub_format))]
-#[cfg_attr(kani, kani::stub(crate::value::Parsed::from_value, crate::value::verif_c05_value::RecParsed::from_value))]
-#[cfg_attr(kani, kani::stub(<serde_json::Value as std::clone::Clone>::clone, value_clone_model))]
-#[cfg_attr(verif_replay, test)]
-pub fn c06_some_obj() {
-    user_quant(9, 1);
-}
-
-//@ harness: c06_none_obj tier=thorough timeout=1800 kind=main mem=28 optional=1
-//@ encodes: op::array::none, op::logic::truthy_from_evaluated, op::logic::truthy (Parsed::from_value replaced by its recording twin: literals parse to Raw, C02; Value::clone by the bounded model)
-//@ bound: collection [5] (literal), literal predicate v = {}: the operator's decision equals the truthiness table
-#[cfg_attr(kani, kani::proof)]
-#[cfg_attr(kani, kani::unwind(8))]
-#[cfg_attr(kani, kani::stub(std::fmt::format, stub_format))]
-#[cfg_attr(kani, kani::stub(crate::value::Parsed::from_value, crate::value::verif_c05_value::RecParsed::from_value))]
-#[cfg_attr(kani, kani::stub(<serde_json::Value as std::clone::Clone>::clone, value_clone_model))]
-#[cfg_attr(verif_replay, test)]
-pub fn c06_none_obj() {
-    user_quant(9, 2);
 }
 
 //@ harness: c06_filter_obj tier=thorough timeout=1800 kind=main mem=28 optional=1
